@@ -328,8 +328,13 @@ def run(ctx: Ctx):
         ctx.ob("C10.a", f"process_logits:optional-stage#{n_opt}:enabled-by-its-setting", okc, fi.loc, whyc +
                ("" if okc else " -- the stage is skipped for settings that ask for it (or applied when switched off)"),
                construct=f"process_logits:stage-enable:{n_opt}")
-    if L is not None and n_opt < 4:
-        raise AnalysisError(f"process_logits: {n_opt} optional stages found (4 confirmed by hand: tanh clip, mask, top-k, top-p)")
+    if L is not None:
+        # the chain from the output back to the input was followed completely (pipeline() raises on anything it does not recognise), so
+        # fewer than the four documented optional stages on it means a stage is bypassed, not that the analysis lost its anchor
+        ctx.ob("C10.a", "process_logits:all-four-optional-stages-on-the-chain", n_opt >= 4, fi.loc,
+               f"{n_opt} optional stages lie on the chain from the returned log_softmax back to the input (tanh clip, mask, top-k, top-p)" +
+               ("" if n_opt >= 4 else " -- a documented stage is not applied to the value that is returned"),
+               construct="process_logits:optional-stage-count")
     stages = [p[0] for p in pipe if p[0] not in ("optional", "bad-skip")]
     want = ["topp", "topk", "temp", "mask", "tanh", "input"]
     ctx.ob("C10.a", "process_logits:stage-order", stages == want, fi.loc,
